@@ -416,5 +416,15 @@ def init_cases(draw, nobj=4):
                 init = "{ %s }" % ", ".join(g.value(et) for _ in range(n))
             objs.append({"decl": "%s xt%d_%d" % (tdn, len(objs), j), "init": init, "name": "xt%d_%d" % (len(objs), j),
                          "storage": draw(st.sampled_from(["", "static "])), "incomplete": True})
+            if draw(st.integers(0, 1)) == 0:
+                # a compound literal of the typedef'd type in between: it sizes itself, not the typedef
+                m = draw(st.integers(1, 6))
+                lit = "(%s){ %s }" % (tdn, ", ".join(g.value(et) for _ in range(m)))
+                k = len(objs)
+                if draw(st.booleans()):
+                    objs.append({"decl": "unsigned long xl%d" % k, "init": "sizeof(%s)" % draw(st.sampled_from([lit, lit[1:].replace(")", "", 1)])), "name": "xl%d" % k, "storage": "", "incomplete": False})
+                else:
+                    objs.append({"decl": "%s *xl%d" % (en, k), "init": lit, "name": "xl%d" % k, "storage": "", "incomplete": False})
+                g.labels.add("typedef-incomplete-array-compound-literal")
         g.labels.add("typedef-incomplete-array")
     return {"defs": g.defs, "objs": objs, "labels": sorted(g.labels)}
